@@ -404,6 +404,34 @@ theorem transform_identity_noarc (cs : List (Cmd K)) (h : ∀ c ∈ cs, cmdIsArc
     intro p; cases p; simp [Matrix.Dot, ident]
   cases c <;> simp_all [transformCmd, cmdIsArc]
 
+/-- `Path.Transform` works command by command: transforming a concatenation (what `Path.Append`/`Join`
+build from raw arrays) is concatenating the transforms -/
+theorem transform_append (m : Mat K) (cs ds : List (Cmd K)) :
+    transform m (cs ++ ds) = transform m cs ++ transform m ds := by
+  simp [transform]
+
+/-- a path without arcs stays without arcs -/
+theorem transform_noarc (m : Mat K) (cs : List (Cmd K)) (h : ∀ c ∈ cs, cmdIsArc c = false) :
+    ∀ c ∈ transform m cs, cmdIsArc c = false := by
+  intro c hc
+  simp only [transform, List.mem_map] at hc
+  obtain ⟨c0, hc0, rfl⟩ := hc
+  have := h c0 hc0
+  cases c0 <;> simp_all [transformCmd, cmdIsArc]
+
+/-- **Round trip**: transforming by an invertible `m` and then by `m.Inv()` gives the path back
+(paths without arcs: exact, command by command) -/
+theorem transform_inv_noarc (m : Mat K) (hd : Matrix.Det m ≠ 0) (cs : List (Cmd K))
+    (h : ∀ c ∈ cs, cmdIsArc c = false) :
+    transform (Matrix.Inv m) (transform m cs) = cs := by
+  rw [← transform_comp_noarc _ _ _ h, inv_mul m hd, transform_identity_noarc _ h]
+
+/-- and the other way round -/
+theorem transform_after_inv_noarc (m : Mat K) (hd : Matrix.Det m ≠ 0) (cs : List (Cmd K))
+    (h : ∀ c ∈ cs, cmdIsArc c = false) :
+    transform m (transform (Matrix.Inv m) cs) = cs := by
+  rw [← transform_comp_noarc _ _ _ h, mul_inv m hd, transform_identity_noarc _ h]
+
 /-- **An ArcTo command under `Path.Transform`**: the large-arc flag is kept, the sweep flag flips iff
 `det m < 0`, the end point is mapped by `m`, and the new radii/axis describe exactly the image ellipse. -/
 theorem transform_arc (L : Laws K) (h0 : (Env.epsilon : K) = 0) (m : Mat K) (rx ry phi s c : K) (large sweep : Bool) (p : Pt K)
@@ -582,7 +610,8 @@ example : ∀ c ∈ ([Cmd.M ⟨0, 0⟩, Cmd.L ⟨1, 2⟩, Cmd.C ⟨1, 3⟩ ⟨2,
 example : arcOK (2 : ℚ) 0 0 3 1 1 1 0 2 3 1 0 0 = true := by
   simp [arcOK, frame, ellipseForm, Form.pull, Form.nearId]
 
-/-- non-vacuity: an invertible matrix exists and `inv_dot` applies to it -/
+/-- non-vacuity: an invertible matrix exists and `inv_dot` applies to it (with the no-arc path above: the
+hypotheses of `transform_inv_noarc`) -/
 example : Matrix.Det (Mat.mk (2 : ℚ) 1 0 0 1 3) ≠ 0 := by simp [Matrix.Det]
 
 end C07
